@@ -650,6 +650,11 @@ def gen(rng, tier):
             (late if i >= n_progs else cases).append(c)
     for c in grammar_cases(rng, tier):
         (late if c["instantiate"] is not None else cases).append(c)
+    # half of the program cases first use the same DSL object with another type request
+    # and another constants table (parse_program must not remember anything between calls)
+    for c in cases:
+        if c["kind"] in ("progs", "grammar") and rng.random() < 0.5:
+            c["warm"] = 1
     return cases + late
 
 
@@ -908,10 +913,11 @@ def shrink(case):
             fail = sorted(fail, key=lambda i: len(json.dumps(ex["progs"][i])))[:6]
             for i in fail:
                 yield {"kind": "progs", "dsl": ex["dsl"], "request": ex["request"], "consts": ex["consts"],
-                       "progs": [ex["progs"][i]]}
+                       "progs": [ex["progs"][i]], "warm": case.get("warm", 0)}
     elif k == "progs":
         progs = case["progs"]
-        base = {"kind": "progs", "dsl": case["dsl"], "request": case["request"], "consts": case["consts"]}
+        base = {"kind": "progs", "dsl": case["dsl"], "request": case["request"], "consts": case["consts"],
+                "warm": case.get("warm", 0)}
         if len(progs) > 1:
             fail = case.get("_failing") or list(range(len(progs)))
             fail = sorted(fail, key=lambda i: len(json.dumps(progs[i])))[:6]
